@@ -46,6 +46,7 @@ Definition rt_wakeup (cl : clause) (cfg : config) (defs : list rdef) (fuel : nat
   let '(w3, o) := next_ cfg defs fuel r VAwake (lib s1) in       (* flag is True meanwhile *)
   let w4 := match o with
             | Ret (VInt d) => set_queue (enqueue (t + d) r (queue w3)) w3
+            | Ret (VFloat d) => set_queue (enqueue (t + d) r (queue w3)) w3
             | _ => w3
             end in
   let cleared := match cl with
